@@ -86,21 +86,48 @@ def side_of(fn, expr, oldp, newp):
     return "?"
 
 
-def _calls_to(fn, attr):
-    """calls of self.next.<attr>(x) including through a local alias"""
-    aliases = set()
-    out = []
+def _next_aliases(fn):
+    """local names bound to ``self.next``"""
+    out = set()
     for n in ast.walk(fn):
-        if isinstance(n, ast.Assign) and norm(n.value) == f"self.next.{attr}":
+        if isinstance(n, ast.Assign) and norm(n.value) == "self.next":
+            for t in n.targets:
+                if isinstance(t, ast.Name):
+                    out.add(t.id)
+    return out
+
+
+def _is_next_attr(fn, e, attr, _cache={}):
+    """``self.next.<attr>`` or ``<alias of self.next>.<attr>``"""
+    if not (isinstance(e, ast.Attribute) and e.attr == attr):
+        return False
+    if norm(e.value) == "self.next":
+        return True
+    return isinstance(e.value, ast.Name) and e.value.id in _next_aliases(fn)
+
+
+def _bound_aliases(fn, attr):
+    aliases = set()
+    for n in ast.walk(fn):
+        if isinstance(n, ast.Assign) and _is_next_attr(fn, n.value, attr):
             for t in n.targets:
                 if isinstance(t, ast.Name):
                     aliases.add(t.id)
-    for n in ast.walk(fn):
-        if isinstance(n, ast.Call):
-            if norm(n.func) == f"self.next.{attr}" or (
-                    isinstance(n.func, ast.Name) and n.func.id in aliases):
-                out.append(n)
-    return out
+    return aliases
+
+
+def _is_call_to(fn, n, attr):
+    if not isinstance(n, ast.Call):
+        return False
+    return _is_next_attr(fn, n.func, attr) or (
+        isinstance(n.func, ast.Name)
+        and n.func.id in _bound_aliases(fn, attr))
+
+
+def _calls_to(fn, attr):
+    """calls of self.next.<attr>(x) including through local aliases of the
+    bound method or of ``self.next``"""
+    return [n for n in ast.walk(fn) if _is_call_to(fn, n, attr)]
 
 
 @rule("C16.polarity", ["C16"],
@@ -181,6 +208,68 @@ def polarity(ctx, res):
         res.oblige(seen == {oldsrc, newsrc}, key + ":both", mod2.loc(fn),
                    f"{meth} handles only {sorted(seen)}")
     res.floor(9)
+
+
+@rule("C16.unregister-first", ["C16"],
+      "within one change event every unregistration of the next listener "
+      "precedes every registration (register ignores an object that is still "
+      "active; a later unregister of the same object would leave it without "
+      "a listener although it is still reachable)")
+def unregister_first(ctx, res):
+    repo = get_pyrepo(ctx)
+    mod = repo.module(TL)
+    cls = repo.cls(TL, "ListenerItem")
+    handlers = ("handle_simple", "handle_dst", "handle_list", "handle_dict",
+                "handle_list_items", "handle_dict_items")
+    # which handlers (transitively) unregister / register
+    for meth in handlers:
+        fn = cls.methods.get(meth)
+        if fn is None:
+            raise AnalysisError(f"ListenerItem.{meth} missing")
+        key = f"ListenerItem.{meth}"
+
+        class F(FactFlow):
+            def __init__(s, *a):
+                super().__init__(*a)
+                s.bad = []
+
+            def classify(s, e, node):
+                if _is_call_to(fn, e, "unregister"):
+                    return [("U", False)]
+                if _is_call_to(fn, e, "register"):
+                    return [("R", False)]
+                if isinstance(e, ast.Call) and any(
+                        is_self_call(e, h) for h in handlers):
+                    # delegated handler: unregisters then registers
+                    return [("U", False), ("R", False)]
+                return []
+
+            def step(s, st, ev, e, node):
+                if ev == "R":
+                    return st | {("SEEN", "register", mod.loc(e))}
+                seen = [f for f in st if f[0] == "SEEN"]
+                if seen:
+                    s.bad.append((e, seen[0][2], node.id, st))
+                return st
+        fl = F(mod, fn, key)
+        fl.run(frozenset())
+        res.instance(key + ":order", mod.loc(fn))
+        done = set()
+        if not fl.bad:
+            res.oblige(True, key + ":unregister-after-register", mod.loc(fn),
+                       "")
+        for e, regloc, nid, st in fl.bad:
+            if mod.loc(e) in done:
+                continue
+            done.add(mod.loc(e))
+            res.violation(key + ":unregister-after-register", mod.loc(e),
+                          f"`{norm(e)[:50]}` can run after the registration "
+                          f"at {regloc} within the same event: an object "
+                          f"present on both sides of the change (reordered "
+                          f"list, value moved to another key) ends up "
+                          f"unregistered while still reachable",
+                          fl.witness_lines(nid, st))
+    res.floor(6)
 
 
 @rule("C16.flag-threading", ["C16"],
